@@ -185,6 +185,22 @@ def run(ctx):
     except Unanalysable as u:
         ctx.unanalysable('INVERSE-SOUND', 'EightChar::get_solar_times', str(u))
 
+    # soundness for ARBITRARY requested characters (not only instant-derived ones): whatever is returned must have exactly them
+    def arb(x):
+        base, ds, dh = x
+        cm = CalModel(I, terms_l, months_l)
+        ec0 = t.m(t.m(cm.solar_time(*base), 'get_lunar_hour'), 'get_eight_char')
+        y, m_, d, h = [t.idx(t.m(ec0, g)) for g in ('get_year', 'get_month', 'get_day', 'get_hour')]
+        # shift the hour stem (keeping the branch) and/or the day pillar parity-consistently
+        h2 = (h + 12 * dh) % 60
+        d2 = (d + ds) % 60
+        ec = I.call('EightChar::from_sixty_cycle', [t.sixty(y), t.sixty(m_), t.sixty(d2), t.sixty(h2)])
+        want = t.name(ec)
+        res = t.m(ec, 'get_solar_times', 1995, 2060)
+        return [I.display(r) for r in res if t.name(t.m(t.m(r, 'get_lunar_hour'), 'get_eight_char')) != want]
+    table(ctx, 'INVERSE-SOUND', 'EightChar::get_solar_times:sound-arbitrary', [(b, ds, dh) for b in ((2000, 3, 10, 0, 30, 0), (2000, 3, 10, 14, 30, 0), (2024, 3, 1, 0, 10, 0)) for ds in (0, 1) for dh in (0, 1, 2, 3, 4)],
+          arb, lambda x: [], 'for arbitrary requested characters (hour stem not following Five Rats, shifted day pillar) every returned instant has exactly those characters', str, fn_site(p, 'EightChar::get_solar_times'))
+
     ctx.assumptions.append('numeric layer replaced by oracles (civil date <-> day number, term instants, lunar month table): C01, C05/C06, C02/C03')
     ctx.not_decided.append('completeness of the inverse search over arbitrary year ranges on the real calendar (needs the real term instants)')
     return ('hour pillar / day roll-over as exhaustive 60x24 tables (lunar view and instant view), eight-character wiring through constructor and both providers, '
